@@ -46,6 +46,12 @@ func loadRepo(repoDir string, patterns []string) (*Loader, error) {
 		return nil, fmt.Errorf("package errors: %s", strings.Join(errs, "; "))
 	}
 	prog, spkgs := ssautil.AllPackages(pkgs, ssa.InstantiateGenerics)
+	for _, sp := range spkgs {
+		// debug references (source names of locals, for loop invariants) in the repository's own packages only
+		if sp != nil && strings.HasPrefix(sp.Pkg.Path(), repoModule) {
+			sp.SetDebugMode(true)
+		}
+	}
 	prog.Build()
 	ld := &Loader{prog: prog, pkgs: pkgs, ssaPkgs: map[string]*ssa.Package{}, pkgByName: map[string]*types.Package{},
 		pkgByPath: map[string]*types.Package{}, funcs: map[string]*ssa.Function{}, repoDir: repoDir}
@@ -163,6 +169,31 @@ func init() {
 		switch kv[:i] {
 		case "PATH", "GOFLAGS", "GOPROXY", "GOSUMDB", "GOTOOLCHAIN":
 			os.Setenv(kv[:i], kv[i+1:])
+		}
+	}
+}
+
+// expandSweeps gives every top-level function of a swept file a contract entry: functions without a contract get a
+// thin one (safety obligations only, invisible to callers); functions with a contract are marked as swept.
+func (ld *Loader) expandSweeps(sp *Specs) {
+	for k, fn := range ld.funcs {
+		if fn.Parent() != nil || fn.Synthetic != "" || !fn.Pos().IsValid() || fn.Blocks == nil || !inRepo(fn) {
+			continue
+		}
+		file := ld.fset.Position(fn.Pos()).Filename
+		for _, sw := range sp.Sweeps {
+			if !strings.HasSuffix(file, "/"+sw.File) {
+				continue
+			}
+			ct := sp.Contracts[k]
+			if ct == nil {
+				ct = &Contract{Key: k, Pkg: fn.Pkg.Pkg.Path(), Loops: map[int]*LoopSpec{}, Where: sw.File, Thin: true}
+				sp.Contracts[k] = ct
+			}
+			if ct.External || ct.Trusted {
+				continue
+			}
+			ct.SweepProps = append(ct.SweepProps, sw.Prop)
 		}
 	}
 }
